@@ -55,7 +55,9 @@ Definition expo_beq (a b : expo Q) := expo_eqb a b.
 Definition w_beq (a b : weighting Q) : bool :=
   match a, b with
   | WConst k c e, WConst k' c' e' => wkind_beq k k' && Qeq_bool c c' && expo_beq e e'
-  | WArray k i e, WArray k' i' e' => wkind_beq k k' && Z.eqb i i' && expo_beq e e'
+  | WArray k i e, WArray k' i' e' =>
+      (* model side first: fresh_id stands for an array object created by the call *)
+      wkind_beq k k' && (Z.eqb i i' || (Z.eqb i fresh_id && Z.leb 1000 i')) && expo_beq e e'
   | WInner k f, WInner k' f' => wkind_beq k k' && Z.eqb f f'
   | WNorm k f, WNorm k' f' => wkind_beq k k' && Z.eqb f f'
   | WDist k f, WDist k' f' => wkind_beq k k' && Z.eqb f f'
